@@ -39,6 +39,9 @@ def events(src, n):
                    "order": [ab.enc(t["A"]) for t in tr if t["ev"] == "unit.var"], "src": dict(src, n=n)}
         ev = {"op": "chomsky_phase", "phase": k, "pre": pre, "post": ab.cfg(G), "exc": exc, "n": n,
               "src": dict(src, n=n)}
+        if k == 4:
+            # which rules use the same Alternative OBJECT (unit elimination leaves such sharing behind)
+            ev["share"] = [1 + next(j for j, r2 in enumerate(G.R) if r2.alternative is r.alternative) for r in G.R]
         if exc == "none":
             ev["res"] = ab.cfg(R)
         yield ev
@@ -117,11 +120,16 @@ def redrive(src):
 
 
 MODELS = {"quick": [("Chomsky", "Chomsky_q.cfg", "unit-rule elimination: all unit/terminal rule sets over 3 variables x "
-                     "all orders in which `for A in V` visits the variables")],
-          "thorough": [("Chomsky", "Chomsky_t.cfg", "the same over 4 variables")]}
+                     "all orders in which `for A in V` visits the variables"),
+                    ("ChomskyPipe", "ChomskyPipe_q.cfg", "the five phases composed from the model's operators on all 28 900 "
+                     "rule lists with <= 2 rules (right-hand sides <= 3 symbols over S,A,a,b): valid, same language, the "
+                     "postcondition after every phase, CNF at the end")],
+          "thorough": [("Chomsky", "Chomsky_t.cfg", "the same over 4 variables"),
+                       ("ChomskyPipe", "ChomskyPipe_q.cfg", "the five phases composed, all rule lists with <= 2 rules")]}
 RULE = ("grammars as in C07 (+ the same hand-written grammars with 24-26 declared variables, + random grammars with "
         "23-27 declared variables for both branches of the fresh-variable routine); the five phases applied one after "
-        "the other through the public functions (one event per phase), cfg_to_chomsky and cfg_apply_chomsky; languages "
+        "the other through the public functions (one event per phase; the deterministic phases 1, 2, 4, 5 are compared "
+        "with the model's operators of ChomskySteps.tla down to the rule LIST), cfg_to_chomsky and cfg_apply_chomsky; languages "
         "compared on all words <= 3 (4) by the derivability fix-point on both sides; non-trivial = phase changed the "
         "grammar; distinct = distinct (phase, grammar)")
 
